@@ -2,7 +2,7 @@ import Driver.Proto
 import Uft.Model.Fstack
 /- C07 driver (model Fstack).
    RESET
-   CFG depth=N threshold=N optin=0|1 locin=0|1 caller=0|1 enabled=0|1 rstart=N rstop=N nolibcall=0|1 nomerge=0|1
+   CFG depth=N threshold=N optin=0|1 locin=0|1 caller=0|1 enabled=0|1 rstart=N rstop=N nolibcall=0|1 nomerge=0|1 pltfixed=0|1
    TRIG <fn> filter=in|out loc=in|out depth=N time=N trace caller traceon traceoff hide plt
    RUN <cmd> <rec>…      cmd: replay report graph dump script dumpraw la spec specstrict
        rec = E|X|V|L:<depth>:<fn>:<time>   -> the shown records in the same format, or "-"
@@ -40,6 +40,7 @@ def applyCfg (c : RCfg) (item : String) : RCfg :=
   | "rstop" => { c with rangeStop := n }
   | "nolibcall" => { c with noLibcall := n != 0 }
   | "nomerge" => { c with noMerge := n != 0 }
+  | "pltfixed" => { c with pltFixed := n != 0 }
   | _ => c
 
 def applyTrig (t : Trigger) (item : String) : Trigger :=
